@@ -44,7 +44,7 @@ ASSUMPTIONS = [
 ]
 
 RULE = ("scenarios: every assignment of {answer, raise|unknown, silent exit} to 2 and 3 members x exit_on_exception, sampled 4-member "
-        "assignments, completion-order / near-tie timing variants of the answering members, repeated solve / get_model / get_value / "
+        "assignments, completion-order / near-tie timing variants of the answering members, early failures with a single answering member 0.3-0.6 s later (several liveness-poll periods), repeated solve / get_model / get_value / "
         "push-pop cycles; distinct = distinct (round configuration, observed outcome)")
 
 WATCHDOG = float(os.environ.get("VERIF_C19_WATCHDOG", "12"))
@@ -319,15 +319,16 @@ def worker(sc):
                 try:
                     r = p.solve()
                     last_sat = r is True
-                    for c in multiprocessing.active_children():
-                        if c not in seen_children:
-                            seen_children.append(c)
                     w = p._ext_solver.name.split(" ")[0] if p._ext_solver is not None else None
                     _emit({"end": k, "res": r if isinstance(r, bool) else repr(r), "winner": int(w) if w is not None else None})
                 except Exception as ex:
                     msg = str(ex)
                     mem = int(msg.split(":")[1].split()[0]) if msg.startswith("member:") else None
                     _emit({"end": k, "err": type(ex).__name__, "member": mem})
+                finally:
+                    for c in multiprocessing.active_children():   # also after a raising solve
+                        if c not in seen_children:
+                            seen_children.append(c)
             elif kind == "get_model":
                 m = p.get_model()
                 d = {}
@@ -747,6 +748,23 @@ def scenarios(rnd, tier):
     #    lingers for 0.6 s while the parent queries the (single, shared) control pipe
     for n, shape in ((2, "many_values"), (2, "values"), (3, "many_values")) + (() if tier == "quick" else ((2, "short"), (3, "values"), (4, "many_values"))):
         sc(["answer"] + ["answer_graceful"] * (n - 1), [0] + [8] * (n - 1), False, shape, "latency")
+    # 7. members that fail / die EARLY while the only answering member is slow (0.3-0.6 s, i.e.
+    #    several periods of the liveness poll): the poll must not fire while a member is alive
+    slow = [300, 450, 600]
+    for n in (2, 3):
+        for k, fm in enumerate(FAIL_MODES):
+            for shape in ("values", "unsat"):
+                modes = [fm] * (n - 1) if n == 2 else [fm, FAIL_MODES[(k + 2) % len(FAIL_MODES)]]
+                pos = (k + (shape == "unsat")) % n
+                modes = modes[:pos] + ["answer"] + modes[pos:]
+                delays = [slow[(k + n) % 3] if m == "answer" else (0 if k % 2 == 0 else 5) for m in modes]
+                sc(modes, delays, False, shape, "slow-answer")
+        # exit_on_exception on is relevant when the early members die silently (no exception to raise)
+        for k, fm in enumerate(FAIL_MODES[2:]):
+            modes = ["answer"] + [fm] * (n - 1)
+            sc(modes, [slow[k % 3]] + [0] * (n - 1), True, "values" if k % 2 else "unsat", "slow-answer")
+    # one member still solving, one answering late, the others gone: cycle of solves
+    sc(["exit", "answer", "raise"], [0, 350, 0], False, "cycle", "slow-answer")
     # 5. many queries against members with different models (exposes a query served by anybody
     #    but the survivor)
     for n in (2, 3, 4):
